@@ -171,7 +171,23 @@ func (g *stmtGen) stmt(inLoop, inFunc bool) {
 	}
 	switch rx.Weighted(g.rt, "stmtshape", w...) {
 	case 0:
-		g.line("two()")
+		switch rx.Uniform(g.rt, 5, "callshape") {
+		case 0:
+			g.line("two()")
+		case 1: // results forwarded by functions that contain function literals with other result counts
+			g.line("fa%d, fb%d := fwd2()", id, id)
+			g.line("_, _ = fa%d+fwd1(), fb%d", id, id)
+		case 2:
+			g.line("fa%d, fb%d := fwd0()", id, id)
+			g.line("fc%d, _ := fwdm(p)", id)
+			g.line("_, _, _ = fa%d, fb%d, fc%d", id, id, id)
+		case 3: // a typed declaration of several names from one call
+			g.line("var q%d, r%d int = two()", id, id)
+			g.line("_, _ = q%d, r%d", id, id)
+		default:
+			g.line("var q%d, r%d = two()", id, id)
+			g.line("x, y = q%d, r%d", id, id)
+		}
 	case 1:
 		g.line("_, b%d := two()", id)
 		g.line("_ = b%d", id)
@@ -303,6 +319,10 @@ func sink(a int, b int) { }
 var cnt int
 func reset() int { cnt = 0; return 7 }
 func bump() { cnt++ }
+func fwd2() (int, int) { lit := func() int { return 1 }; _ = lit; return two() }
+func fwd1() int { lit := func() (int, int) { return 1, 2 }; _, _ = lit(); return one() }
+func fwd0() (int, int) { func() { bump() }(); if cnt > 100 { return 0, 0 }; return two() }
+func fwdm(p *P) (int, int) { g := func(a int) (int, int, int) { return a, a, a }; _, _, c := g(1); _ = c; return two() }
 x, y := 1, 2
 s := []int{1, 2, 3}
 t := []int{9}
